@@ -233,9 +233,13 @@ def run(case):
           'keys': sorted(int(k[1:]) for k in s1.client_states) if name == 'apfl' else [],
           'rngpath': _rng_path(root, s1.rng, 2 * nr + 2) if is_agg else 0,
       }
-      s2, d2 = _call(name, obj, state, clients, is_agg)
-      o2 = (tiny.snapshot(s2), tiny.snapshot(d2))
-      ro['repeat_same'] = tiny.same_snapshot(o1[0], o2[0]) and tiny.same_snapshot(o1[1], o2[1])
+      try:
+        s2, d2 = _call(name, obj, state, clients, is_agg)
+        o2 = (tiny.snapshot(s2), tiny.snapshot(d2))
+        ro['repeat_same'] = tiny.same_snapshot(o1[0], o2[0]) and tiny.same_snapshot(o1[1], o2[1])
+      except Exception as ex:   # e.g. the first call deleted (donated) buffers of its arguments
+        ro['repeat_same'] = False
+        ro['second_err'] = type(ex).__name__ + ': ' + str(ex)[:120]
       ro['first_result_readable'] = (tiny.count_deleted(s1) + tiny.count_deleted(d1) == 0 and
                                      tiny.same_snapshot(o1[0], tiny.snapshot(s1)))
       ro['still_same_after_second'] = (tiny.same_snapshot(before, tiny.snapshot(state)) and tiny.count_deleted(state) == 0
@@ -250,9 +254,12 @@ def run(case):
       obs['rounds'].append(ro)
       # continuation from the serialised copy (2 rounds after the branch point)
       if restored is not None:
-        rs, rd = _call(name, obj, restored, clients, is_agg)
-        post.append(tiny.same_snapshot(o1[0], tiny.snapshot(rs)) and tiny.same_snapshot(o1[1], tiny.snapshot(rd)))
-        restored = rs
+        try:
+          rs, rd = _call(name, obj, restored, clients, is_agg)
+          post.append(tiny.same_snapshot(o1[0], tiny.snapshot(rs)) and tiny.same_snapshot(o1[1], tiny.snapshot(rd)))
+          restored = rs
+        except Exception:     # arguments destroyed by the first call
+          post.append(False)
       state = s1
       if r == case['branch']:
         restored = _serialise(state, case.get('ser', 'pickle'))
